@@ -72,6 +72,7 @@ INITIAL_GRAPHS = {
     'three': [['a', []], ['b', [['a', []]]], ['c', [['b', [['a', []]]], ['a', []]]]],
     'diamond': [['a', [['b', [['c', []]]], ['b', [['@', 0]]]]]],
     'big': [['a', [['b', [['c', [['a', [['b', []]]]]]]]]]],
+    'five': [['a', [['b', []]]], ['b', [['c', []]]], ['c', [['a', []]]], ['a', [['c', [['b', []]]]]], ['b', [['a', [['c', []]]]]]],
     'mixed_sizes': [['a', []], ['a', [['b', [['c', [['a', []]]]]]]], ['b', [['a', []], ['c', []]]]],
 }
 
@@ -446,6 +447,13 @@ def passthrough_config(rng, optimiser=None):
                          {'all_after': [n0 + rng.choice([0, 2, 5, 9]), kind]},
                          {'by_size_over': [rng.choice([3, 4]), kind]}])
     cfg['objective']['faults'] = faults
+    if rng.random() < 0.5:
+        # the whole initial population is given (no extension), the population size may still double, and the
+        # evaluation backend goes away a few calls after the start: new + previous stays within pop_size
+        cfg.update({'optimiser': 'evo', 'initial': 'five', 'pop_size': 5, 'max_pop_size': 20, 'crossover': ['none'],
+                    'scheme': rng.choice(['steady_state', 'steady_state', 'parameter_free']),
+                    'mutation_prob': rng.choice([0.3, 0.4, 0.5])})
+        cfg['objective']['faults'] = {'all_after': [5 + rng.choice([2, 3, 4, 5, 6]), kind]}
     cfg.pop('rule', None)
     return cfg
 
